@@ -57,6 +57,8 @@ def dataset_specs(draw, systems=None, max_nq=4, max_na=3, families=("power", "po
     tz = draw(st.booleans()) if t_min_zero is None else t_min_zero
     tmin = 0.0 if tz else draw(st.floats(0.0, 300.0))
     ntv = draw(st.integers(*ntv_range))
+    if max_nt >= 3 and draw(st.integers(0, 7)) == 0:
+        nt = max(1, ntv - 4)           # "square" grid: as many temperatures (incl. QHA's 4 guard rows) as volumes
     ratio = draw(st.floats(1.05, 1.3))
     f0 = draw(st.floats(0.12, 0.5))
     f1 = draw(st.floats(0.15, 0.35))
@@ -220,7 +222,8 @@ class Dataset:
                 krng.shuffle(others)
                 # any subset of the other non-zero components, every size equally likely (single couplings such as
                 # "nine + c35 + c46" matter as much as nearly complete sets)
-                keys = ORTHO9 + others[: int(krng.integers(0, len(others) + 1))]
+                k = int(krng.integers(1, 4)) if krng.random() < 0.5 else int(krng.integers(0, len(others) + 1))
+                keys = ORTHO9 + others[: min(k, len(others))]
             elif s["keys_mode"] == "any":
                 allnz = list(nz)
                 krng.shuffle(allnz)
